@@ -84,6 +84,12 @@ CONF = {
         "tiers": tiers(8, 2500, 16, 40000),
         "require_classes": ["refresh:autoinj", "refresh:autort", "final:completed", "final:aborted", "final:gone", "pop", "cancelled"],
     },
+    "C12": {
+        "rule": "cases = scenarios with 2-8 bars carrying 0-3 synchronised and 0-1 plain decorators per side (minimum widths 0-12, extra-space / right-indent flags, per-call texts of display width 0-16 incl. wide runes, 0-3 wrapper layers), membership changes between frames (late adds, completion with removal, abort with drop, pop mode, queued successors, cancel), manual refresh, injected auto refresh and a real ticker; non-trivial = some cycle has >=2 bars in one sync column, needs differ inside a column, and the set of rendered bars changes between cycles; distinct by FNV-64 of the scenario JSON",
+        "assumptions": GO_ASSUME + SCHED_ASSUME + ["the need of a decorator is recomputed by the oracle from the text it formatted: max(W, width(text) + extra space); go-runewidth display widths", "all decorator calls of cycle k finish before cycle k+1 begins (flush waits for every bar), so probes are attributed to cycles exactly in every refresh mode", "hangs are left to C01"],
+        "tiers": tiers(8, 1500, 16, 40000),
+        "require_classes": ["shared-column", "needs-differ", "membership-change", "pop", "refresh:manual", "refresh:autoinj", "refresh:autort"],
+    },
     "C05": {
         "rule": "cases = sequential scenarios (container config, 1-7 bar specs, program of add/incr/set/abort/priority/write/tick/cancel steps) drawn by rapid; non-trivial = >=3 frames and >=1 change of the displayed set between frames; distinct by FNV-64 of the scenario JSON",
         "assumptions": GO_ASSUME + SCHED_ASSUME + ["one output Write call = one frame (cwriter flushes its buffer with a single Write)", "exact frame model only for manual refresh, sequential client and queue length > number of bars; otherwise history invariants"],
